@@ -693,6 +693,53 @@ def rule_readfile(P):
     return r
 
 
+def rule_inflight_table(P):
+    """max-inflight re-sizes the table of in-flight requests: the table pointer and its length are published together (nothing reads either of them between the two stores - an index
+    computed with the old length into the new table files a request in the wrong list or outside the table), and every request is moved with an index taken modulo the NEW length"""
+    r = Rule("C39-inflight-table", "K3/K4", "the in-flight table pointer and its length are stored back to back; requests are re-filed modulo the new length into the new table", floor=3)
+    FP, FN = "evdns_base.req_heads", "evdns_base.n_req_heads"
+    for f in P.fns_in("evdns.c"):
+        sp = [el for el, lhs, op, rhs in f.stores() if is_e(strip(lhs), "fld") and strip(lhs)[2] == FP]
+        sn = [el for el, lhs, op, rhs in f.stores() if is_e(strip(lhs), "fld") and strip(lhs)[2] == FN]
+        if not sp and not sn:
+            continue
+        r.inst(("pair", f.name), {"fn": f.name, "pointer_stores": [e.where() for e in sp], "length_stores": [e.where() for e in sn]})
+        if bool(sp) != bool(sn) and not (sp and all(is_e(strip(e.e[3]), "null") or (is_e(strip(e.e[3]), "int") and strip(e.e[3])[1] == 0) or is_e(strip(e.e[3]), "cast") for e in sp)):
+            r.bad("K3:%s:table-half-published" % f.name, (sp or sn)[0].where(), f.name, "%s stores only one of the in-flight table pointer and its length" % f.name)
+            continue
+        for a in sp + sn:
+            others = sn if a in sp else sp
+            def reads_table(x):
+                if x in sp or x in sn:
+                    return False
+                if x.e[0] == "call" and (callee_name(x.e) is None or (callee_name(x.e) in P.fns and P.fns[callee_name(x.e)].file == "evdns.c")):
+                    return True         # another resolver function (or an unknown callee) may look at the table; allocator and libc calls do not
+                return any(is_e(q, "fld") and q[2] in (FP, FN) for q in walk(x.e))
+            # from this store, the partner store is reached before anything looks at the table
+            w = f.path_avoiding(a.pos(), reads_table, lambda x: x in others)
+            # ... on the paths that lead to the partner at all
+            if w is not None and others and f.path_avoiding(w.pos(), lambda x: x in others, lambda x: False) is not None:
+                r.bad("K3:%s:table-read-between-pointer-and-length" % f.name, w.where(), f.name,
+                      "%s looks at the in-flight table (%s) after %s and before its partner is stored: pointer and length do not belong together there" % (f.name, show(w.e)[:50], show(a.e)[:40]))
+    g = P.fn("evdns_base_set_max_requests_inflight")
+    ins = [el for el in g.calls("evdns_request_insert")]
+    newlen = None
+    for el, lhs, op, rhs in g.stores():
+        if is_e(strip(lhs), "fld") and strip(lhs)[2] == FN:
+            newlen = strip(rhs)
+    alloc = [strip(el.e[2]) if el.e[0] == "asg" else ["var", el.e[1], "local"] for el in g.elems() if el.e[0] in ("asg", "decl") and any(is_e(q, "call") and callee_name(q) == "event_mm_calloc_" for q in walk(el.e))]
+    for el in ins:
+        tgt = strip(el.e[2][1])
+        okmod = any(is_e(q, "bin") and q[1] == "%" and newlen is not None and eq(strip(q[3]), newlen) for q in walk(tgt))
+        oktab = any(alloc and eq(q, alloc[0]) for q in walk(tgt))
+        r.inst(("refile", el.n), {"site": el.where(), "target": show(tgt)[:70], "modulo_new_length": okmod, "into_new_table": oktab})
+        if not (okmod and oktab):
+            r.bad("K4:evdns_base_set_max_requests_inflight:refile-index", el.where(), g.name, "a request is re-filed at %s: not the new table indexed modulo the new length %s" % (show(tgt)[:60], show(newlen) if newlen else "?"))
+    if not ins:
+        r.brk("no evdns_request_insert in evdns_base_set_max_requests_inflight")
+    return r
+
+
 def rule_search_add(P):
     """search_postfix_add: the stored postfix is the domain without its leading dots, its recorded length is that text's, the copy reads only the caller's string and fits the block"""
     from ..cmem import MEM0, mem_put, mem_str, mem_hook
@@ -749,7 +796,7 @@ def rule_search_add(P):
 def run(ctx, config):
     P = ctx.prog(UNITS, config)
     rules = []
-    for mk in (rule_table, rule_names, rule_options, rule_lines, rule_search_add, rule_hosts, rule_files, rule_readfile):
+    for mk in (rule_table, rule_names, rule_options, rule_lines, rule_search_add, rule_hosts, rule_files, rule_readfile, rule_inflight_table):
         try:
             rules.append(mk(P))
         except AnalysisBroken as ex:
